@@ -111,7 +111,14 @@ def run(ctx):
                     fp.write(raw)
                 with open(p, "r", encoding=explicit or "utf-8-sig", newline=None) as fp:
                     decoded = fp.read()
-                for pathobj in (p, pathlib.Path(p)):
+                class _PL:  # a custom os.PathLike
+                    def __init__(self, v):
+                        self.v = v
+
+                    def __fspath__(self):
+                        return self.v
+                entry = [e for e in os.scandir(tmp) if e.name == os.path.basename(p)][0]
+                for pathobj in (p, pathlib.Path(p), os.fsencode(p), _PL(p), _PL(os.fsencode(p)), entry):
                     nfile += 1
                     try:
                         want = parse_string(decoded, filename=p)
@@ -120,7 +127,7 @@ def run(ctx):
                     try:
                         got = parse_file(pathobj, explicit) if explicit else parse_file(pathobj)
                     except Exception as e:  # noqa
-                        efails.append({"input": t, "encoding": enc, "explicit": explicit, "diff": "parse_file raised %r" % e})
+                        efails.append({"input": t, "encoding": enc, "explicit": explicit, "path_kind": type(pathobj).__name__, "diff": "parse_file raised %r" % e})
                         continue
                     if got != want:
                         efails.append({"input": t, "encoding": enc, "explicit": explicit, "diff": "parse_file differs from parse_string of the decoded bytes"})
